@@ -173,12 +173,14 @@ def run_case(ctx):
         gm = gen.random_basis_list(rng, nsite=(2, 4), max_dim=48, min_dim=4, qn_mode=gm.desc["qn_mode"])
     model = states.model_of(gm)
     n = len(gm.basis)
+    out_order = list(gm.basis)
     if n >= 3 and rng.random() < 0.3:
         # the documented `output_ordering`: the order of e_dofs / v_dofs (and of the occupations) differs from the chain order
         from renormalizer.model import Model
         perm = [int(i) for i in rng.permutation(n)]
         model = Model(list(gm.basis), [], output_ordering=[gm.basis[i] for i in perm])
         ctx.cls("output-ordering-permuted")
+        out_order = [gm.basis[i] for i in perm]
     qntot = states.pick_sector(rng, gm)
     nstates = int(rng.integers(1, 4))
     sts = [make_state(ctx, gm, model, qntot, as_mpdm) for _ in range(nstates)]
@@ -224,9 +226,12 @@ def run_case(ctx):
 
     # ---- occupations with the per-model cache, interleaved between states sharing the Model -------------
     from renormalizer.model import basis as ba, Op
-    e_dofs = list(model.e_dofs)
+    # the documented order: DoFs in the order of `output_ordering` (taken from the harness's own list, not read back from the model)
+    e_dofs = [d for b in out_order if b.is_electron for d in b.dofs]
     v_ok = all(isinstance(b, ba.BasisSHO) for b in gm.basis if b.is_phonon)
-    v_dofs = list(model.v_dofs) if v_ok else []
+    v_dofs = [d for b in out_order if b.is_phonon for d in b.dofs] if v_ok else []
+    ctx.check(list(model.e_dofs) == e_dofs and list(model.v_dofs) == [d for b in out_order if b.is_phonon for d in b.dofs],
+              "model|e_dofs-or-v_dofs-not-in-output-ordering", e_dofs=[repr(d) for d in model.e_dofs], want=[repr(d) for d in e_dofs])
     if e_dofs or v_dofs:
         share = [s for s, _ in sts]
         for s in share:
